@@ -24,4 +24,27 @@ TEXT = {
              "differential with forced trims.",
         note=NOTE_BUF, technique="Lean 4 proof (fold invariants, Perm.foldl_eq', trace invariants) + exhaustive/random differential of the pure functions"),
 }
+TEXT.update({
+    "C13": dict(
+        text="Lean theorems for every sequence of send/close-source/Get/Commit/Rollback/Close steps of the Channel model: committed ++ Buffer() = "
+             "everything taken and taken ++ queued = everything sent (lossless, ordered), replay after Rollback in original order, Commit drops exactly "
+             "the delivered entries, a closed source yields no value, nothing is taken after Close, Get/Commit fail after Close and a second Close errors. "
+             "Linearizability is by construction of the one-mutex model and is checked against the code, not proved. Tied by sequential differential execution.",
+        note="Trusted: Lean kernel + 3 standard axioms; model tied by this run's differential; reflect TryRecv and the mutex atomicity are modelled.",
+        technique="Lean 4 proof (inductive invariant over traces) + differential execution"),
+    "C18": dict(
+        text="Lean theorems over every outcome script and cancellation point: stops at the first success with its result; a fatal error of any nesting depth "
+             "returns that call's result and the fully unwrapped error; after an observed cancellation no call is started and (nil, ctx error) is returned; "
+             "the counter is min(k,31); every delay is a whole number of slots < 2^min(c,31) times the rate. Tied by scripted differential execution of the real "
+             "ExponentialRetry through verif seams and by sampling the real delay calculation.",
+        note="Trusted: Lean kernel + 3 standard axioms; the random draw and wall-clock waits are parameters of the model; tie = this run's differential.",
+        technique="Lean 4 proof (structural induction over the outcome script) + differential execution"),
+    "C19": dict(
+        text="Lean theorems over an abstract reflect contract: for every signature, argument list and result-target list Call never panics on its own account "
+             "(call_total), an ok outcome means the function received exactly the given arguments position by position after variadic expansion with nil for "
+             "nilable parameters and exactly its return values are stored (ok_is_direct_call, passAll_exact, passOne_exact); an error outcome has no invocation and "
+             "no store by construction. The unguarded variant panics (witness of the fixed defect F5). Tied by differential execution over generated signatures.",
+        note="Trusted: Lean kernel + 3 standard axioms; reflect's assignability/panic contract is modelled on a finite type universe; tie = this run's differential.",
+        technique="Lean 4 proof (induction over argument/target lists) + differential execution through reflect.MakeFunc callees"),
+})
 NOT_YET = {}
